@@ -93,7 +93,11 @@ func (l *maximumImpl) Lock(model Model) error {
 	if _, ok := l.Expression().(ConstantExpression); ok {
 		l.hasConstantExpression = true
 	}
+	// A FromStopExpression has the method set of a StopExpression, but its
+	// value at a stop is a property of the stop in front of it.
+	_, isFromStopExpression := l.Expression().(*fromExpression)
 	if _, ok := l.Expression().(StopExpression); ok &&
+		!isFromStopExpression &&
 		!l.hasNegativeValues {
 		l.hasStopExpressionAndNoNegativeValues = true
 	}
